@@ -642,7 +642,9 @@ func runChild(wd string, spec childSpec) (rep childReport, code int, stderr stri
 	var eb bytes.Buffer
 	cmd.Stderr = &eb
 	cmd.Stdout = nil
+	t0 := time.Now()
 	runErr := cmd.Run()
+	rec.Count("us.cmdrun", int(time.Since(t0).Microseconds()))
 	rec.Progress()
 	rec.Count("processes.spawned", 1)
 	stderr = eb.String()
